@@ -709,3 +709,10 @@ def pre_checks(ctx):
         if issubclass(cls, M.HashableObjectWithManifest) != _has_raw(kind) or not issubclass(cls, M.BaseHashableModel):
             out.append(("table:class-hierarchy", "%s: base classes do not match the raw_manifest field" % cls.__name__))
     return out
+
+
+# functions of /repo whose executed-line coverage by this run is reported in the evidence
+ANCHORS = [('swh/model/model.py', '_compute_hash_from_manifest'),
+           ('swh/model/model.py', 'BaseHashableModel.*'),
+           ('swh/model/model.py', 'HashableObjectWithManifest.compute_hash'),
+           ('swh/model/model.py', 'HashableObjectWithManifest.check')]
